@@ -39,7 +39,9 @@ G(s) == "G:" \o s                        \* the regex generated from source s (u
 
 Present(f)  == src[f] # "none"
 CanGen(f)   == Present(f) /\ Compiles(src[f])
-Found(f)    == rulesFile = "one" /\ stored[f] # "norule"
+\* "norule": the rule is not in the rules file; "nochain": the rule is there but its chain is
+\* shorter than the offset the file name asks for (and another rule follows)
+Found(f)    == rulesFile = "one" /\ stored[f] \notin {"norule", "nochain"}
 CanFmt(f)   == Present(f) /\ Formats(src[f])
 Log(c)      == last' = c /\ pre' = TreeRec
 
